@@ -74,3 +74,10 @@ package literal
 //@ func init#1
 //@   opt modifies-everything true
 //@ globalinv[defaultBuilder-set] by init#1: defaultBuilder != nil
+
+//@ props C06
+//@ func (l *Literal) UUID
+//@   trusted hash of the value bytes; definedness and injectivity are the subject of C06
+//@   pure
+//@   requires wfLit(l)
+//@   ensures result == lu(l) && len(result) == 16
